@@ -471,6 +471,29 @@ func (r *dagRun) taskFn(id int, gno int) getoptions.CommandFn {
 	}
 }
 
+// manualCtx is a context whose end is triggered by hand and reported as an expired deadline.
+type manualCtx struct {
+	context.Context
+	done chan struct{}
+	mu   sync.Mutex
+	err  error
+}
+
+func (m *manualCtx) Done() <-chan struct{} { return m.done }
+func (m *manualCtx) Err() error {
+	m.mu.Lock()
+	defer m.mu.Unlock()
+	return m.err
+}
+func (m *manualCtx) expire() {
+	m.mu.Lock()
+	if m.err == nil {
+		m.err = context.DeadlineExceeded
+		close(m.done)
+	}
+	m.mu.Unlock()
+}
+
 type DagResult struct {
 	Violations []string   `json:"violations,omitempty"`
 	Mismatches []string   `json:"mismatches,omitempty"`
@@ -730,7 +753,16 @@ func runDagCase(c *DagCase, d *Driver) *DagResult {
 	// 3. Run under the controller
 	ctl := rand.New(rand.NewSource(c.CtlSeed))
 	curRun.Store(r)
-	ctx, cancel := context.WithCancel(context.Background())
+	// the context ends either by an explicit cancel or (every other case) like a deadline: Err() is
+	// context.DeadlineExceeded and only Done() tells the scheduler
+	var ctx context.Context
+	var cancel func()
+	if c.CtlSeed%2 == 1 {
+		m := &manualCtx{Context: context.Background(), done: make(chan struct{})}
+		ctx, cancel = m, m.expire
+	} else {
+		ctx, cancel = context.WithCancel(context.Background())
+	}
 	defer cancel()
 	runDone := make(chan error, 1)
 	var g2 *dag.Graph
